@@ -123,10 +123,78 @@ let c18 (t : toks) (b : Buffer.t) =
                   List.iter (fun (i, x) -> Buffer.add_char b ' '; pr_nat b i; Buffer.add_char b ':'; pr_z b x) v) vs
   | s -> failwith ("c18: bad kind " ^ s)
 
+(* ---------- graphs ---------- *)
+(* tokens: n m (u v w)*m  -> (graph, weights as Z list) *)
+let next_graph t : graph * z list =
+  let n = next_int t in let m = next_int t in
+  let es = ref [] and ws = ref [] in
+  for _ = 1 to m do
+    let u = next_nat t in let v = next_nat t in let w = next_z t in
+    es := (u, v) :: !es; ws := w :: !ws
+  done;
+  ({ nv = nat_of_int n; ge = List.rev !es }, List.rev !ws)
+let pr_nats b l = List.iter (fun x -> Buffer.add_char b ' '; pr_nat b x) l
+
+(* ---------- C16 ---------- *)
+let c16 t b =
+  let (g, _) = next_graph t in
+  let roots = next_list t next_nat in
+  match create_index g roots with
+  | None -> Buffer.add_string b "MODEL-NONE"
+  | Some fi ->
+      Buffer.add_string b "K "; pr_nat b fi.fi_k; Buffer.add_string b " CSD "; pr_nat b fi.fi_csd;
+      Buffer.add_string b " IDX"; pr_nats b fi.fi_idx;
+      Buffer.add_string b " REV"; pr_nats b fi.fi_rev;
+      Buffer.add_string b " ONF";
+      List.iter (fun i -> Buffer.add_string b (if Nat.ltb i fi.fi_csd then " 0" else " 1")) fi.fi_idx;
+      (match spanning_forest g roots with
+       | Some (f, k) -> Buffer.add_string b " COPY 1 K2 "; pr_nat b k; Buffer.add_string b " EMIT"; pr_nats b f
+       | None -> Buffer.add_string b " SF-NONE")
+
+(* ---------- C13 ---------- *)
+let c13 t b =
+  let (g, _) = next_graph t in
+  let picks = next_list t next_nat in
+  match greedy_fvs g picks with
+  | FvsOk out -> Buffer.add_string b "OK"; pr_nats b out
+  | FvsBadPick v -> Buffer.add_string b "BADPICK "; pr_nat b v
+  | FvsIncomplete -> Buffer.add_string b "INCOMPLETE"
+  | FvsOutOfFuel -> Buffer.add_string b "FUEL"
+
+(* ---------- C15 ---------- *)
+let c15 t b =
+  match next t with
+  | "B" ->
+      let s = next_nat t in let tg = next_nat t in let h = next t in
+      let mh = if h = "inf" then None else Some (nat_of_int (int_of_string h)) in
+      let (g, _) = next_graph t in
+      (match is_bfs_reachable g s tg mh with
+       | Some r -> Buffer.add_string b (if r then "B 1" else "B 0")
+       | None -> Buffer.add_string b "MODEL-FUEL")
+  | "S" ->
+      let k = next_nat t in
+      let (g, w) = next_graph t in
+      let scan = next_list t next_nat in
+      (match construct_spanner g k scan with
+       | SpOk sp ->
+           Buffer.add_string b "NV "; pr_nat b sp.sp_graph.nv;
+           Buffer.add_string b " RET"; pr_nats b sp.retained;
+           Buffer.add_string b " DROP"; pr_nats b sp.dropped;
+           Buffer.add_string b " SPE"; List.iter (fun (u, v) -> Buffer.add_char b ' '; pr_nat b u; Buffer.add_char b ' '; pr_nat b v) sp.sp_graph.ge;
+           Buffer.add_string b " SPW"; List.iter (fun x -> Buffer.add_char b ' '; pr_z b x) (spanner_weights w sp);
+           Buffer.add_string b " MAPSIZE "; Buffer.add_string b (string_of_int (List.length sp.retained))
+       | SpSelfLoop -> Buffer.add_string b "IMPL-EXCEPTION Self loops?"
+       | SpBadEdge -> Buffer.add_string b "MODEL-BADEDGE"
+       | SpOutOfFuel -> Buffer.add_string b "MODEL-FUEL")
+  | s -> failwith ("c15: bad kind " ^ s)
+
 (* ---------- dispatch ---------- *)
 let components : (string * (toks -> Buffer.t -> unit)) list = [
   ("c17", c17);
   ("c18", c18);
+  ("c16", c16);
+  ("c13", c13);
+  ("c15", c15);
 ]
 
 let () =
